@@ -912,7 +912,7 @@ impl SixtyCycleHour {
     }
     let term: SolarTerm = solar_time.get_term();
     let mut index: isize = term.get_index() as isize - 3;
-    if index < 0 && term.get_julian_day().get_solar_time().is_after(SolarTerm::from_index(solar_year, 3).get_julian_day().get_solar_time()) {
+    if index < 0 && term.get_julian_day().get_day() > SolarTerm::from_index(solar_year, 3).get_julian_day().get_day() {
       index += 24;
     }
     let mut d: SixtyCycle = lunar_day.get_sixty_cycle();
